@@ -7,6 +7,7 @@ import B3.Spec
 import B3.Gen.RsPortable
 import B3.Gen.Arith
 import B3.Model.Rs
+import B3.Model.GenK
 import B3.B3sum.Drv
 import B3.Model.C
 open B3
@@ -34,8 +35,6 @@ def bytesOfHex (s : String) : Option (List UInt8) :=
 
 def cvOfBytes (bs : List UInt8) : CV := wordsOfBytes 8 bs
 
-/-- the kernels the model runs with: the functions generated from src/portable.rs -/
-def genK : Kern := { cip := Gen.Rs.compress_in_place, cxof := Gen.Rs.compress_xof }
 
 /-- data argument: `pat <len> <seed>` or `hex <bytes>` -/
 def parseData : List String → Option (List UInt8 × List String)
@@ -118,16 +117,8 @@ def showR : R Nat → String
 def modeKey (m : Spec.Mode) : CV := m.key
 def modeFlags (m : Spec.Mode) : UInt8 := m.flags
 
-/-- key words and flags as the Rust constructors compute them (through the model, not the spec) -/
-def rsModeKey (sd : Nat) : Spec.Mode → CV
-  | .hash => Gen.Rs.IV
-  | .keyed k => wordsOfBytes 8 k
-  | .derive ctx => wordsOfBytes 8 (Rs.rootHash genK (Rs.hashAllAtOnce genK Gen.Rs.IV Gen.Rs.DERIVE_KEY_CONTEXT sd ctx))
-
-def rsModeFlags : Spec.Mode → UInt8
-  | .hash => 0
-  | .keyed _ => Gen.Rs.KEYED_HASH
-  | .derive _ => Gen.Rs.DERIVE_KEY_MATERIAL
+def rsModeKey (sd : Nat) (m : Spec.Mode) : CV := Rs.modeKeyWords genK sd m
+def rsModeFlags (m : Spec.Mode) : UInt8 := Rs.modeFlags m
 
 def sdOfPlatform : String → Option Nat
   | "portable" => some 1
@@ -151,7 +142,7 @@ def step (s : DState) (line : String) : DState × String :=
   | ["H", "newck", r, ck] => match bytesOfHex ck with
     -- hazmat new_from_context_key: derive mode with a given context key
     | some kb => if kb.length ≠ 32 then bad else
-      let h := Rs.Hasher.newInternal (wordsOfBytes 8 kb) Gen.Rs.DERIVE_KEY_MATERIAL
+      let h := Rs.Hasher.newInternal (wordsOfBytes 8 kb) Spec.DERIVE_KEY_MATERIAL
       -- ghost mode: keyed-with-derive-flags is not a Spec.Mode; handled by `Z` ops only
       (s.setH r { h := h, mode := .keyed kb, absorbed := [] }, "ok;-")
     | none => bad
@@ -250,8 +241,7 @@ def step (s : DState) (line : String) : DState × String :=
     -- one-shot functions hash / keyed_hash / derive_key
     | some (mode, rest) => match parseData rest with
       | some (data, []) =>
-        let o := Rs.hashAllAtOnce genK (rsModeKey s.sd mode) (rsModeFlags mode) s.sd data
-        (s, hexOfBytes (Rs.rootHash genK o) ++ ";" ++ hexOfBytes (Spec.hash mode data))
+        (s, hexOfBytes (Rs.oneShot genK s.sd mode data) ++ ";" ++ hexOfBytes (Spec.hash mode data))
       | _ => bad
     | none => bad
   | "Z" :: "merge" :: kind :: rest => match parseMode rest with
@@ -306,7 +296,7 @@ def step (s : DState) (line : String) : DState × String :=
     | none => bad
   | ["Z", "ctxkey", c] => match bytesOfHex c with
     | some ctx =>
-      (s, hexOfBytes (Rs.rootHash genK (Rs.hashAllAtOnce genK Gen.Rs.IV Gen.Rs.DERIVE_KEY_CONTEXT s.sd ctx))
+      (s, hexOfBytes (Rs.rootHash genK (Rs.hashAllAtOnce genK Spec.IV Spec.DERIVE_KEY_CONTEXT s.sd ctx))
           ++ ";" ++ hexOfBytes (Spec.contextKey ctx))
     | none => bad
   | ["K", "cip", _plat, cv, block, bl, t, fl] => match bytesOfHex cv, bytesOfHex block, bl.toNat?, t.toNat?, fl.toNat? with
@@ -328,8 +318,8 @@ def step (s : DState) (line : String) : DState × String :=
   | "C" :: "init" :: r :: rest => match parseMode rest with
     | some (mode, []) =>
       let h := match mode with
-        | .hash => C.initBase Gen.Rs.IV 0
-        | .keyed k => C.initBase (wordsOfBytes 8 k) Gen.Rs.KEYED_HASH
+        | .hash => C.initBase Spec.IV 0
+        | .keyed k => C.initBase (wordsOfBytes 8 k) Spec.KEYED_HASH
         | .derive ctx => C.initDeriveKeyRaw genK s.csd ctx
       let nulInCtx := match mode with
         | .derive ctx => ctx.contains 0
